@@ -12,7 +12,7 @@ git -C $MR checkout -q -- .
 git -C $MR clean -fdq -e target
 if [ "$PATCH" != none ]; then git -C $MR apply "$PATCH"; fi
 mkdir -p $MT
-rsync -a --delete --exclude .lake --exclude target --exclude run --exclude .git --exclude evidence /work/resync/ $MT/
+rsync -a --delete --exclude .lake --exclude target --exclude run --exclude .git --exclude evidence ${SRC:-/work/resync}/ $MT/
 sed -i "s#\"/repo/#\"$MR/#" $MT/harness/Cargo.toml
 cd $MT
 (cd lean/CwPlus && lake build driver >/dev/null 2>&1 || true)
